@@ -119,6 +119,7 @@ def plan(tier):
         ("bulk3", [bulk(3, "d0")]),
         ("arr_bulk1", [array([bulk(1, "d0")])]),
         ("int7", [integer(7)]),
+        ("bulk0", [bulk(0, "d0")]),
     ]
     pipelines = [
         ("bulk1_int", [bulk(1, "d0"), integer(-42)]),
@@ -130,7 +131,6 @@ def plan(tier):
             ("bulk4", [bulk(4, "d0")]),
             ("simple2", [simple(2, "s0")]),
             ("arr_empty", [array([])]),
-            ("bulk0", [bulk(0, "d0")]),
             ("nullbulk", [nullbulk()]),
             ("int_neg", [integer(-42)]),
         ]
